@@ -58,6 +58,22 @@ Fixpoint token_exprs (fuel : nat) (t : token) : list expr :=
       | _ => []
       end
   end.
+(* does a statement list contain an `.if` or a macro invocation (at any depth)? *)
+Fixpoint varies (fuel : nat) (t : token) : bool :=
+  match fuel with
+  | O => true
+  | S f =>
+      let blk b := existsb (varies f) (blk_inner b) in
+      let oblk b := match b with Some b => blk b | None => false end in
+      match t with
+      | TIf _ _ _ | TInvoke _ _ _ | TImport _ _ _ _ => true
+      | TBraces _ b => blk b
+      | TLabel _ _ b => oblk b
+      | TLoop _ _ b => blk b
+      | TSegment _ b => oblk b
+      | _ => false
+      end
+  end.
 Definition mentions (fuel : nat) (ts : list token) (n : ident) : bool :=
   existsb (fun e => existsb (ident_eqb n) (first_names e)) (flat_map (token_exprs fuel) ts).
 
@@ -227,6 +243,7 @@ Fixpoint xp (fuel : nat) (t : token) : X (list token) :=
                   body <= x_in_scope (iteration_scope_name lsc i) (xps (blk_inner b)) ;;
                   xret [TBraces (iteration_scope_name lsc i)
                           (Blk (blk_lparen b) (blk_rparen b) (TVarDef VConst t_index (le_span e) (lit i) :: body))])
+              else if (1 <? count) && existsb (varies fuel0) (blk_inner b) then xstop 1%nat
               else
                 (* kept as a loop: its body must expand the same way in every iteration *)
                 bodies <= xloop f loop_first_index count (fun i =>
